@@ -26,7 +26,7 @@ RULE = ("integer least-squares problems (m,n<=5, cond(A^TA+shift)<=1e4) x shape(
         "step below 1/L; projections and soft-thresholding on dyadic vectors incl. ties and negative gamma; LM one-unknown "
         "quadratic residuals (dense/sparse) + 2-unknown stationarity; function handles returning their argument / a view / a persistent buffer x shift; "
         "data scale 2^-30..2^30 on A, b, both; LM residual scale 2^-10..2^10 x relative floor nu0/sigma^2 with step-by-step nu/step/accept traces through "
-        "every branch combination and stationarity also at maxit; inputs not modified; SciPy wrappers per method. distinct = distinct "
+        "every branch combination and stationarity also at maxit; inputs not modified; object HISTORY (solve twice, re-assign every public attribute between solves, shared arrays: identical to a fresh solver); SciPy wrappers per method. distinct = distinct "
         "(operation, inputs, configuration); trivial = zero right-hand side with zero start, x already optimal, identity projection")
 
 SIG = {
